@@ -38,29 +38,6 @@ TIMEOUT = 8.0
 KINDS = ['file', 'fileblob', 'mapping', 'blobmapping', 'demofile', 'demomapping']
 
 
-# A realistic partial write: the raw write returns a SHORT COUNT (the first bytes reached the disk) and
-# the NEXT raw operation fails — what a full disk does.  (vfs.Recorder.fail_partial writes bytes AND
-# raises from the same call, which no OS does and which desynchronises Python's buffered position.)
-_orig_raw_write = vfs.RecFileIO.write
-
-
-def _short_write(self, b):
-    rec = self._rec
-    sa = getattr(rec, 'short_at', None)
-    if sa is not None and rec.enabled and rec.nmut + 1 == sa[0]:
-        b = bytes(b)
-        rec.short_at = None
-        if len(b) > 1:
-            n = _orig_raw_write(self, b[:max(1, min(sa[1], len(b) - 1))])
-            rec.fail_at = rec.nmut + 1
-            return n
-        rec.fail_at = rec.nmut + 1
-    return _orig_raw_write(self, b)
-
-
-vfs.RecFileIO.write = _short_write
-
-
 def p64(n):
     return struct.pack('>Q', n)
 
@@ -547,15 +524,64 @@ class Runner:
     def violation(self, sig, what):
         self.violations.append((sig, what, len(self.executed) - 1))
 
-    def loads(self, env):
-        out = {}
-        for oid in sorted(env.oids):
-            try:
+    @staticmethod
+    def load1(env, oid, held=False):
+        """load(oid); with held=True a second pooled reader handle of the FileStorage is kept out
+        meanwhile, so the load is served by ANOTHER handle of the pool (what a concurrent reader gets)"""
+        import contextlib
+        cm = env.fs._files.get() if (held and env.fs is not None) else contextlib.nullcontext()
+        try:
+            with cm:
                 d, s = env.st.load(p64(oid), '')
-                out[oid] = (len(d), tag_of(d), u64(s))
-            except Exception as e:
-                out[oid] = type(e).__name__
+            return (len(d), tag_of(d), u64(s))
+        except Exception as e:
+            return type(e).__name__
+
+    def loads(self, env):
+        return {oid: self.load1(env, oid) for oid in sorted(env.oids)}
+
+    def load_each_handle(self, env, oid, depth=4):
+        """load(oid) served in turn by each of the pool's reader handles (a stale read-ahead buffer in
+        ANY of them is a trace of the failed transaction)"""
+        import contextlib
+        out = []
+        if env.fs is not None:
+            depth = max(depth, min(10, self.pool_size(env) + 1))
+        with contextlib.ExitStack() as stack:
+            for _ in range(depth if env.fs is not None else 1):
+                out.append(self.load1(env, oid))
+                if env.fs is not None:
+                    stack.enter_context(env.fs._files.get())
         return out
+
+    def reader_probe(self, env):
+        """a concurrent reader: loads the objects stored last (near the end of the file) through a
+        handle other than the pool's first one, so that its read-ahead buffer covers whatever lies
+        behind `_pos` at this moment (bytes of a transaction that is being voted)"""
+        if env.fs is None:
+            return
+        import contextlib
+        self.count('reader-probe')
+        with contextlib.ExitStack() as stack:
+            # every pooled handle is "in use by other readers": the load below opens a fresh handle,
+            # whose first buffer fill starts at the record and runs on into the bytes behind `_pos`
+            for _ in range(min(8, self.pool_size(env))):
+                stack.enter_context(env.fs._files.get())
+            for oid in self.last_oids(env):
+                self.load1(env, oid)
+
+    @staticmethod
+    def pool_size(env):
+        try:
+            return len(env.fs._files._files)
+        except Exception:
+            return 3
+
+    def last_oids(self, env):
+        if not env.cur:
+            return []
+        last = max(env.cur.values())
+        return [o for o, t in env.cur.items() if t == last][:2]
 
     def next_txn(self, env, scen_label):
         """the next transaction begins (lock not leaked), commits and is readable"""
@@ -593,15 +619,13 @@ class Runner:
                            'the transaction following the aborted one did not commit normally: %r' % (res,))
             return False
         tid, stored = self.last_commit
-        try:
-            d, s = env.st.load(p64(NEXT_OID), '')
-            good = (len(d), tag_of(d), u64(s)) == (stored[NEXT_OID][0], stored[NEXT_OID][1], tid)
-        except Exception as e:
-            good = False
-            d = repr(e)
-        if not good:
+        want = (stored[NEXT_OID][0], stored[NEXT_OID][1], tid)
+        got = self.load_each_handle(env, NEXT_OID)      # first of all: before any other read refills a buffer
+        if any(g != want for g in got):
             self.violation('C05:next-txn-unreadable:%s:%s' % (env.kind, scen_label),
-                           'the transaction following the aborted one committed but is not readable')
+                           'the transaction following the aborted one committed, but load of its object '
+                           '(through the pooled reader handles) answers %r instead of %r' % (
+                               [g for g in got if g != want][0], want))
             return False
         # ... and it committed NORMALLY: nothing but its own record changed
         loads1 = self.loads(env)
@@ -685,24 +709,22 @@ class Runner:
             ops = [['store', 700, 'cur', room, 33]] + ops + [['store', 701, 'cur', 3, 34]]
         rec.nmut = 0
         rec.fail_at = failure.get('k') if fk in ('raw', 'finishfault') else None
-        rec.fail_partial = 0
-        rec.short_at = None
-        if fk == 'raw' and failure.get('partial'):
-            rec.fail_at = None
-            rec.short_at = (failure['k'], failure['partial'])
+        # partial > 0: the k-th raw write is a SHORT write of that many bytes and the next raw
+        # operation fails (what a full disk does)
+        rec.fail_partial = failure.get('partial', 0) if fk == 'raw' else 0
         percall = []
         what = label
         nd_vote = failure.get('nd_vote', 1)
         nrec_ok = [0]
 
         def fault_k_stage(info):
-            ev = info['fired'][0]
+            ev = info['fired'][-1]          # the operation that raised (a short write may precede it)
             if ev[2] in ('mkdir', 'rename', 'create', 'remove', 'link') or (len(ev) > 3 and 'blobs' in str(ev[3])):
                 return 3
             return 1 if failure.get('k', 1) % 2 else 2
 
         def fault_k_vote(info):
-            ev = info['fired'][0]
+            ev = info['fired'][-1]          # the operation that raised (a short write may precede it)
             tmp_ops = 1 if nrec_ok[0] > 0 else 0
             if ev[3].endswith('.tmp'):
                 return 1
@@ -789,7 +811,24 @@ class Runner:
                 foreign_calls('after the stores')
             if not state['failed'] and (abort_at is None or abort_at == 'vote'):
                 n0 = mut_count()
-                r = self.call(env, 'vote', lambda: st.tpc_vote(obj), 'vote %d' % t, fault_k=fault_k_vote, label=label)
+                probing = [False]
+
+                def reader_hook(ev):
+                    # just before the except path truncates: everything the failed vote wrote is in the file
+                    if ev[0] == 'trunc' and ev[1] == 'Data.fs' and not probing[0]:
+                        probing[0] = True
+                        try:
+                            self.reader_probe(env)
+                        finally:
+                            probing[0] = False
+                rec.on_event = reader_hook if env.fs is not None else None
+                try:
+                    r = self.call(env, 'vote', lambda: st.tpc_vote(obj), 'vote %d' % t, fault_k=fault_k_vote,
+                                  label=label)
+                finally:
+                    rec.on_event = None
+                if r['out'] == 'ok' and not (fk == 'foreign' and failure.get('commit')) and fk != 'finishfault':
+                    self.reader_probe(env)       # a reader while the voted transaction waits for its finish
                 nd = sum(1 for ev in r['evs'] if ev[0] == 'write' and ev[1] == 'Data.fs')
                 percall.append(('vote', mut_count() - n0, nd))
                 if r['out'] != 'ok':
@@ -805,7 +844,7 @@ class Runner:
         if fk in ('abort', 'count', 'foreign', 'finishfault') or state['failed']:
             srec[1] = True
             self.nontrivial = True
-        rec.short_at = None
+        rec.fail_partial = 0
         # ---- finish-fault: the failure hits the status flip
         if fk == 'finishfault':
             if not state['voted']:
@@ -826,8 +865,7 @@ class Runner:
                 raise CallbackError('tpc_finish callback failed')
             r = self.call(env, 'finish', lambda: st.tpc_finish(obj, boom), 'finishcb %d' % t, label=label)
             if r['out'] != 'err:Callback':
-                self.violation('C05:finish-callback-failure:%s:not-raised' % env.kind,
-                               'tpc_finish with a raising callback answered ' + r['out'])
+                self.count('observation:finish-callback-failure:%s:answered-%s' % (env.kind, r['out']))
                 env.dead = True
                 return percall
             self.call(env, 'abort', lambda: st.tpc_abort(obj), 'abort %d' % t, label=label)
@@ -841,12 +879,14 @@ class Runner:
                          if before[sect].get(k, '<absent>') != after[sect].get(k, '<absent>')]
                 leak = any('lock_free' in x for x in diffs)
                 group = 'demo' if env.demo is not None else ('file' if env.fs is not None else env.kind)
-                sig = 'C05:finish-callback-failure:%s:%s' % (group, 'lock-leak' if leak else 'voted-data-left')
-                self.violation(sig, 'the callback passed to tpc_finish raised (before the status flip: the '
-                                    'transaction did not finish); after the mandated tpc_abort the storage '
-                                    'differs from its state before the transaction began in %s%s' % (
-                                        ', '.join(diffs[:6]),
-                                        ' — a commit lock is still held, the next tpc_begin blocks' if leak else ''))
+                # OUTSIDE C05 (coordinator's ruling: a failing finish callback is none of the property's
+                # error kinds): an informational probe only, never a violation.  See
+                # corpus/C05/observation_finish_callback_*.py and Props.C05.finish_callback_*.
+                self.count('observation:finish-callback-failure:%s:%s' % (
+                    group, 'lock-leak' if leak else 'voted-data-left'))
+            else:
+                self.count('observation:finish-callback-failure:%s:restored' % (
+                    'demo' if env.demo is not None else ('file' if env.fs is not None else env.kind)))
             self.obs_point(env, 'after:finishcb')
             return percall
         # ---- foreign calls, then the victim commits normally
@@ -1065,128 +1105,192 @@ def gen_case(rng, kind, thorough):
 
 
 # ---------------------------------------------------------------------------- Connection level
-def conn_case(ck, root, seed_rng):
-    """a second resource manager whose tpc_vote raises, driven through transaction.commit() on a
-    Connection (FileStorage under the VFS): oracle only (before/after on the storage)."""
+def gen_conn_spec(rng):
+    """rounds of failing commits driven through transaction.commit() on a Connection"""
+    rounds = []
+    for when in ('vote', 'commit', 'begin'):
+        rounds.append(dict(kind='foreign', when=when, savepoint=rng.random() < 0.4,
+                           size=rng.choice([1, 5000, 30000])))
+    for sp in (True, False, True):
+        rounds.append(dict(kind='conflict', savepoint=sp, on=rng.randrange(2), size=rng.choice([1, 300, 9000])))
+    rounds.append(dict(kind='meta', savepoint=rng.random() < 0.5, size=rng.choice([1, 300])))
+    rng.shuffle(rounds)
+    return dict(kind='conn', nobj=rng.choice([2, 3]), rounds=rounds)
+
+
+class ForeignFailure(RuntimeError):
+    pass
+
+
+class FailingRM:
+    """a second resource manager of the transaction that fails at the given phase"""
+
+    def __init__(self, when):
+        self.when = when
+
+    def sortKey(self):
+        return '~~~~zzzz'            # sorts (and so votes) after the connection
+
+    def abort(self, t):
+        pass
+
+    def tpc_begin(self, t):
+        if self.when == 'begin':
+            raise ForeignFailure('foreign participant fails tpc_begin')
+
+    def commit(self, t):
+        if self.when == 'commit':
+            raise ForeignFailure('foreign participant fails commit')
+
+    def tpc_vote(self, t):
+        if self.when == 'vote':
+            raise ForeignFailure('foreign participant votes no')
+
+    def tpc_finish(self, t):
+        pass
+
+    def tpc_abort(self, t):
+        pass
+
+
+def conn_case(ck, root, spec):
+    """Connection level (anchors Connection.py): a transaction on a Connection over a FileStorage
+    (under the VFS) fails during transaction.commit() — a second resource manager failing its
+    tpc_begin / commit / vote, a ConflictError (also while savepoint data is copied), over-long
+    description — and is aborted.  Oracle only: the storage (bytes, iterator, memory) is as before,
+    the committing connection shows exactly what a brand-new connection reads, and the next
+    transaction on it commits (worker thread + timeout) storing nothing but its own change."""
     import transaction
     import ZODB
     from ZODB.FileStorage import FileStorage
     from persistent.mapping import PersistentMapping
     import clock
-    out = []
     rec = vfs.Recorder(root)
+    keys = ['k%d' % i for i in range(spec['nobj'])]
     with vfs.install(rec), clock.scripted():
         fs = FileStorage(os.path.join(root, 'Data.fs'))
         db = ZODB.DB(fs)
-        tm = transaction.TransactionManager()
-        conn = db.open(tm)
-        r = conn.root()
-        for i in range(seed_rng.choice([1, 2, 3])):
-            r['k%d' % i] = PersistentMapping({'v': 'x' * seed_rng.choice([3, 200, 9000])})
-            tm.commit()
+        tm1 = transaction.TransactionManager()
+        c1 = db.open(tm1)
+        r1 = c1.root()
+        for k in keys:
+            r1[k] = PersistentMapping({'v': 0})
+        tm1.commit()
+        tm2 = transaction.TransactionManager()
+        c2 = db.open(tm2)
 
-        class FailingRM:
-            def __init__(self, when):
-                self.when = when
+        def image():
+            img = {k: v for k, v in vfs.snapshot(root).items()
+                   if not k.endswith('/') and not k.endswith('.lock') and not k.endswith('.tmp')}
+            its = [(t.tid, [(x.oid, x.tid, x.data) for x in t]) for t in fs.iterator()]
+            return dict(img=img, its=its, pos=fs._pos, ltid=fs._ltid, nidx=len(fs._index),
+                        ntidx=len(fs._tindex), txn=fs._transaction is None,
+                        lock=not fs._commit_lock.locked())
 
-            def sortKey(self):
-                return '~~~~zzzz'            # votes after the connection
+        def view(conn):
+            return {k: dict(conn.root()[k].data) for k in keys}
 
-            def abort(self, t):
-                pass
+        def fresh_view():
+            tm = transaction.TransactionManager()
+            c = db.open(tm)
+            try:
+                return view(c)
+            finally:
+                tm.abort()
+                c.close()
 
-            def tpc_begin(self, t):
-                if self.when == 'begin':
-                    raise RuntimeError('foreign participant fails tpc_begin')
+        for n, rd in enumerate(spec['rounds']):
+            case = dict(kind='conn', nobj=spec['nobj'], rounds=spec['rounds'][:n + 1])
+            label = rd['kind'] + ('-' + rd['when'] if rd['kind'] == 'foreign' else '') + (
+                '-savepoint' if rd.get('savepoint') else '')
+            ck.count('conn:' + label)
+            try:
+                tm1.begin()
+                objs = [r1[k] for k in keys]
+                for i, o in enumerate(objs):
+                    o['v'] = 'r%d-%d-' % (n, i) + 'y' * rd['size']
+                    if rd.get('savepoint') and i == 0:
+                        tm1.savepoint()
+                if rd.get('savepoint'):
+                    tm1.savepoint()
+                if rd['kind'] == 'conflict':
+                    tm2.begin()
+                    c2.root()[keys[rd['on'] % len(keys)]]['v'] = 'other-%d' % n
+                    tm2.commit()
+                elif rd['kind'] == 'foreign':
+                    tm1.get().join(FailingRM(rd['when']))
+                elif rd['kind'] == 'meta':
+                    tm1.get().note('d' * 70000)
+                before = image()
+                n0 = len(rec.events)
+                try:
+                    tm1.commit()
+                    raised = None
+                except Exception as e:          # the failure under test
+                    raised = e
+                tm1.abort()
+                evs = [e for e in rec.events[n0:] if e[0] in ('write', 'trunc') and e[1] == 'Data.fs']
+                kinds = ''.join('w' if e[0] == 'write' else 't' for e in evs)
+                ck.count('conn:data-trace:' + ('write+trunc' if 't' in kinds else (kinds and 'write' or 'none')))
+                ck.case(['conn', rd, kinds], True)
+                if raised is None:
+                    ck.violation('C05:conn:%s-not-raised' % label, 'transaction.commit() did not raise', case)
+                    return
+                after = image()
+                if before != after:
+                    diff = [k for k in before if before[k] != after[k]]
+                    sig = 'C05:lock-leak:conn:%s' % label if 'lock' in diff else 'C05:trace-left:conn:%s' % label
+                    ck.violation(sig, 'transaction.commit() failed (%s: %s) and was aborted; afterwards the '
+                                      'FileStorage differs in %s' % (label, type(raised).__name__, diff), case)
+                    return
+                # the committing connection shows what a brand-new connection reads
+                tm1.begin()
+                v1, v3 = view(c1), fresh_view()
+                if v1 != v3:
+                    bad = [k for k in keys if v1[k] != v3[k]]
+                    ck.violation('C05:trace-left:conn-view:%s' % label,
+                                 'after the failed and aborted commit (%s) the committing connection shows %s = '
+                                 '%r, a new connection reads %r' % (label, bad[0], str(v1[bad[0]])[:80],
+                                                                    str(v3[bad[0]])[:80]), case)
+                    return
+                # the next transaction: an unrelated change to every object
+                done = []
 
-            def commit(self, t):
-                if self.when == 'commit':
-                    raise RuntimeError('foreign participant fails commit')
-
-            def tpc_vote(self, t):
-                if self.when == 'vote':
-                    raise RuntimeError('foreign participant votes no')
-
-            def tpc_finish(self, t):
-                pass
-
-            def tpc_abort(self, t):
-                pass
-
-        for when in ('vote', 'commit', 'begin'):
-          try:
-            conn_round(ck, root, rec, fs, tm, conn, r, FailingRM, when, seed_rng)
-          except Exception as e:
-            ck.violation('C05:conn:unexpected-error:foreign-%s' % when,
-                         'driving a Connection on a FileStorage with a failing second resource manager '
-                         'raised %s: %s' % (type(e).__name__, str(e)[:200]), dict(kind='conn', when=when))
-            return
-        conn.close()
+                def nxt():
+                    try:
+                        for k in keys:
+                            r1[k]['w'] = n
+                        tm1.commit()
+                        done.append(1)
+                    except Exception as e:
+                        done.append(e)
+                th = threading.Thread(target=nxt, daemon=True)
+                th.start()
+                th.join(TIMEOUT)
+                if not done:
+                    ck.violation('C05:lock-leak:conn:%s' % label, 'the next transaction.commit() did not return', case)
+                    return
+                if done[0] != 1:
+                    ck.violation('C05:next-txn-failed:conn:%s' % label,
+                                 'the next transaction.commit() raised %r' % (done[0],), case)
+                    return
+                exp = {k: dict(v3[k], w=n) for k in keys}
+                got = fresh_view()
+                if got != exp:
+                    bad = [k for k in keys if got[k] != exp[k]]
+                    ck.violation('C05:next-txn-damaged-others:conn:%s' % label,
+                                 'the transaction after the failed one changed only "w", but a new connection '
+                                 'now reads %s = %r instead of %r' % (bad[0], str(got[bad[0]])[:80],
+                                                                      str(exp[bad[0]])[:80]), case)
+                    return
+            except Exception as e:
+                ck.violation('C05:conn:unexpected-error:%s' % label,
+                             'driving a Connection through a failing commit raised %s: %s' % (
+                                 type(e).__name__, str(e)[:200]), case)
+                return
+        c1.close()
+        c2.close()
         db.close()
-
-
-def conn_round(ck, root, rec, fs, tm, conn, r, FailingRM, when, seed_rng):
-    from persistent.mapping import PersistentMapping
-    def image():
-        img = {k: v for k, v in vfs.snapshot(root).items()
-               if not k.endswith('/') and not k.endswith('.lock') and not k.endswith('.tmp')}
-        its = [(t.tid, [(x.oid, x.tid, x.data) for x in t]) for t in fs.iterator()]
-        return dict(img=img, its=its, pos=fs._pos, ltid=fs._ltid, nidx=len(fs._index),
-                    ntidx=len(fs._tindex), txn=fs._transaction is None,
-                    lock=not fs._commit_lock.locked())
-    before = image()
-    n0 = len(rec.events)
-    r['k0']['v'] = 'changed-' + when + 'y' * seed_rng.choice([1, 5000, 30000])
-    r['new-' + when] = PersistentMapping()
-    t = tm.get()
-    t.join(FailingRM(when))
-    try:
-        tm.commit()
-        raised = False
-    except RuntimeError:
-        raised = True
-    tm.abort()
-    evs = [e for e in rec.events[n0:] if e[0] in ('write', 'trunc') and e[1] == 'Data.fs']
-    kinds = ''.join('w' if e[0] == 'write' else 't' for e in evs)
-    after = image()
-    ck.count('conn:foreign-%s' % when)
-    ck.count('conn:data-trace:' + ('write+trunc' if 't' in kinds else (kinds and 'write' or 'none')))
-    ck.case(['conn', when, kinds], when == 'vote' and 't' in kinds)
-    case = dict(kind='conn', when=when)
-    if not raised:
-        ck.violation('C05:conn:foreign-%s-not-raised' % when, 'transaction.commit() did not raise', case)
-    if before != after:
-        diff = [k for k in before if before[k] != after[k]]
-        ck.violation('C05:trace-left:conn:foreign-%s' % when,
-                     'a second resource manager failed its %s; after transaction.commit() raised and '
-                     'abort, the FileStorage differs in %s' % (when, diff), case)
-    if when == 'vote' and kinds and not kinds.endswith('t'):
-        ck.mismatch('conn foreign vote: data-file trace %r does not end with a truncate' % kinds, case)
-    # next transaction through the same connection
-    done = []
-
-    def nxt():
-        try:
-            r['after-' + when] = 1
-            tm.commit()
-            done.append(1)
-        except Exception as e:
-            done.append(e)
-    th = threading.Thread(target=nxt, daemon=True)
-    th.start()
-    th.join(TIMEOUT)
-    if not done:
-        ck.violation('C05:lock-leak:conn:foreign-%s' % when,
-                     'the next transaction.commit() did not return', case)
-        return
-    if done[0] != 1:
-        ck.violation('C05:next-txn-failed:conn:foreign-%s' % when,
-                     'the next transaction.commit() raised %r' % (done[0],), case)
-        return
-    conn.sync()
-    if conn.root().get('after-' + when) != 1 or ('new-' + when) in conn.root():
-        ck.violation('C05:next-txn-unreadable:conn:foreign-%s' % when,
-                     'state after the next commit is wrong', case)
 
 
 # ---------------------------------------------------------------------------- driver / verdict
@@ -1259,7 +1363,7 @@ def main(argv=None):
         if c.get('kind') == 'conn':
             conn_root = os.path.join(ck.tmp, 'conn')
             os.makedirs(conn_root)
-            conn_case(ck, conn_root, random.Random(0))
+            conn_case(ck, conn_root, c)
             return finish(ck)
         cases = [c]
     else:
@@ -1305,8 +1409,7 @@ def main(argv=None):
             else:
                 small = steps
             ck.violation(sig, what, dict(kind=kind, quota=quota, base=base, steps=small))
-        if all(v[0].startswith('C05:finish-callback-failure') for v in r.violations):
-            # (the model follows the code through a failing finish callback, so it is still compared)
+        else:
             spans.append((len(all_lines), r, case))
             all_lines += r.lines
     # model: one driver process for all cases
@@ -1326,9 +1429,11 @@ def main(argv=None):
                              steps=r.executed, model_lines=ctx))
                     break
     if not ck.replay_path:
-        conn_root = os.path.join(ck.tmp, 'conn')
-        os.makedirs(conn_root)
-        conn_case(ck, conn_root, ck.rng)
+        for i in range(4 if not ck.thorough else 60):
+            conn_root = os.path.join(ck.tmp, 'conn%d' % i)
+            os.makedirs(conn_root)
+            conn_case(ck, conn_root, gen_conn_spec(ck.rng))
+            shutil.rmtree(conn_root, ignore_errors=True)
     finish(ck)
 
 
